@@ -138,6 +138,81 @@ theorem printedValues_single (k v : List Char) (q : Quals) (h : q.filter (fun kv
   rw [h]
   simp [sortStrs_single]
 
+/-! ### clean dictionaries print clean lines -/
+
+theorem mem_insertStr (x y : List Char) (l : List (List Char)) : y ∈ insertStr x l → y = x ∨ y ∈ l := by
+  induction l with
+  | nil => intro h; simp [insertStr] at h; exact Or.inl h
+  | cons a l ih =>
+    intro h
+    unfold insertStr at h
+    split at h
+    · rcases List.mem_cons.1 h with h | h
+      · exact Or.inr (by rw [h]; simp)
+      · rcases ih h with h | h
+        · exact Or.inl h
+        · exact Or.inr (List.mem_cons_of_mem _ h)
+    · rcases List.mem_cons.1 h with h | h
+      · exact Or.inl h
+      · exact Or.inr h
+
+theorem mem_sortStrs (y : List Char) (l : List (List Char)) : y ∈ sortStrs l → y ∈ l := by
+  induction l with
+  | nil => intro h; simp [sortStrs] at h
+  | cons a l ih =>
+    intro h
+    have h' : y ∈ insertStr a (sortStrs l) := h
+    rcases mem_insertStr a y _ h' with h | h
+    · rw [h]; simp
+    · exact List.mem_cons_of_mem _ (ih h)
+
+/-- a qualifier dictionary without tab / line break in keys and values, keys non-empty -/
+def QualsClean (q : Quals) : Prop :=
+  ∀ kv ∈ q, kv.1 ≠ [] ∧ '\t' ∉ kv.1 ∧ '\n' ∉ kv.1 ∧ ∀ v, some v ∈ kv.2 → '\t' ∉ v ∧ '\n' ∉ v
+
+theorem qualPairsOf_clean (valid : List (List Char)) (q : Quals) (h : QualsClean q) :
+    ∀ p ∈ qualPairsOf valid q, p.1 ≠ [] ∧ '\t' ∉ p.1 ∧ '\n' ∉ p.1 ∧ '\t' ∉ p.2 ∧ '\n' ∉ p.2 := by
+  induction q with
+  | nil => simp [qualPairsOf]
+  | cons kv rest ih =>
+    obtain ⟨k, vals⟩ := kv
+    have ih' := ih (fun x hx => h x (List.mem_cons_of_mem _ hx))
+    have hk := h (k, vals) (by simp)
+    unfold qualPairsOf
+    by_cases h1 : (vals.isEmpty || !valid.contains k) = true
+    · simp only [h1, if_true]; exact ih'
+    · simp only [h1, if_false, Bool.false_eq_true]
+      by_cases h2 : (vals.filterMap id).isEmpty = true
+      · simp only [h2, if_true]; exact ih'
+      · simp only [h2, if_false, Bool.false_eq_true]
+        intro p hp
+        rcases List.mem_append.1 hp with hp | hp
+        · obtain ⟨v, hv, rfl⟩ := List.mem_map.1 hp
+          have hv' : some v ∈ vals := by
+            have := mem_sortStrs v _ hv
+            simpa [List.mem_filterMap] using this
+          have hvc := hk.2.2.2 v hv'
+          have hsub : ∀ c ∈ removeChars v, c ∈ v := fun c hc => (List.mem_filter.1 hc).1
+          exact ⟨hk.1, hk.2.1, hk.2.2.1, fun hc => hvc.1 (hsub _ hc), fun hc => hvc.2 (hsub _ hc)⟩
+        · exact ih' p hp
+
+theorem allPairs_clean (valid : List (List Char)) (q : Quals) (pseudo : Bool) (h : QualsClean q) :
+    ∀ p ∈ allPairs valid q pseudo, p.1 ≠ [] ∧ '\t' ∉ p.1 ∧ '\n' ∉ p.1 ∧ '\t' ∉ p.2 ∧ '\n' ∉ p.2 := by
+  intro p hp
+  unfold allPairs at hp
+  rcases List.mem_append.1 hp with hp | hp
+  · exact qualPairsOf_clean valid q h p hp
+  · cases pseudo
+    · simp at hp
+    · simp only [if_true, List.mem_singleton] at hp
+      subst hp
+      exact ⟨by decide, by decide, by decide, by simp, by simp⟩
+
+/-- a feature with at least one block, a clean key and a clean dictionary prints readable text -/
+theorem featOK_of_clean (f : Feature) (hb : f.blocks ≠ []) (hk : f.key ≠ [] ∧ '\t' ∉ f.key ∧ '\n' ∉ f.key)
+    (hq : QualsClean f.quals) : FeatOK f :=
+  ⟨hb, hk, allPairs_clean _ _ _ hq⟩
+
 /-! ### locus tags -/
 
 theorem stripPrefix_append (p rest : List Char) : stripPrefix p (p ++ rest) = some rest := by
